@@ -35,12 +35,14 @@ def _register():
 
     @method("CanonHdr", "encode")
     def ch_encode(ex, self, args, kw):
+        codec_arg(args, kw)
         if not self.text:
             raise SymRaise("AttributeError", "'bytes' object has no attribute 'encode'")
         return CanonHdr(self.lo, self.hi, self.nc, text=False)
 
     @method("CanonHdr", "decode")
     def ch_decode(ex, self, args, kw):
+        codec_arg(args, kw)
         if self.text:
             raise SymRaise("AttributeError", "'str' object has no attribute 'decode'")
         return CanonHdr(self.lo, self.hi, self.nc, text=True)
